@@ -230,7 +230,7 @@ def buf_configs(tier):
         [("Set", 7), ("Set", 8), ("Add", 7), ("Add", 8)],
         [("Add", seq([KV("k6", INT), KV("k9", SHORT)])), ("Add", seq([KV("k2", INT)]))],
         [(7, KV("k1", INT)), (6, KV("k6", INT)), (8, KV("k9", SHORT)), (2, KV("k2", SHORT))],
-        [seq([KV("k9", SHORT), KV("k8", LONG)])], 4 if th else 3)
+        [seq([KV("k9", SHORT), KV("k8", LONG)])], 3)
     # the count limit cuts inside the array (5 inline + 1 overflow kept)
     limit = [KV("k%d" % i, SHORT if i % 2 else INT) for i in range(1, 9)]
     add("buf-limit", dict(ac=6, vl=-1), limit,
